@@ -623,6 +623,17 @@ pub fn isolation(tier: Tier, w: &Arc<World>) -> Scn {
         intruders.push((p, a));
     }
     desc.push_str(&format!(" intruders={ni}"));
+    let mut fifo_client = None;
+    if d.chance("swarm.fifo_request", 1, 8) {
+        // one more client asks for a named pipe that sits among the served files: opening it never
+        // returns, which is that client's problem alone
+        crate::world::make_fifo(&dir.join("pipe"));
+        let at = 10 * MS + d.range("fifo.at_us", 4000) as Ns * US;
+        let req = rfc::encode(&Pkt::Rrq { file: "pipe".into(), mode: "octet".into(), opts: if d.chance("fifo.options", 1, 2) { vec![("tsize".into(), "0".into())] } else { vec![] } });
+        let (p, _) = w.add_peer(Box::new(Scripted::new("fifo-request", vec![(at, Target::Addr(srv.addr()), req)])), srv.v6, 0);
+        fifo_client = Some(p);
+        desc.push_str(" +request-for-a-named-pipe");
+    }
     set_faults(w, fc);
     w.add_monitor(Box::new(XferMon::new("C12", Rules { c01: true, c02: true, ..Default::default() }, xspecs, 0)));
     w.add_monitor(Box::new(IsoMon::new(clients, intruders.clone(), srv.addr(), srv.single_port)));
@@ -631,6 +642,9 @@ pub fn isolation(tier: Tier, w: &Arc<World>) -> Scn {
         w.start_peer_at(p, at);
     }
     for (p, _) in intruders {
+        w.start_peer(p);
+    }
+    if let Some(p) = fifo_client {
         w.start_peer(p);
     }
     Scn { sandbox, desc, step_cap: 2_000_000, time_cap: 100_000_000 * SEC, faultfree: false }
